@@ -88,16 +88,15 @@ abbrev Known := List (Nat × List Nat)
 
 def isKnown (k : Known) (f : Field) : Bool := k.any (fun e => e.1 == f.num && e.2.contains f.wt)
 
-/-- the unknown-field set `proto.Unmarshal` leaves at the top level: the raw bytes of every field
-the type does not know, in order -/
-def unknownBytes (k : Known) (fs : List Field) : Bytes := (fs.filter (fun f => !isKnown k f)).flatMap (·.raw)
+/-- the unknown-field set `proto.Unmarshal` leaves at the top level: every field the type does not
+know (or knows with another wire type), in order -/
+def unknownFields (k : Known) (fs : List Field) : List Field := fs.filter (fun f => !isKnown k f)
 
 inductive Outcome
   | ok
   | malformed
-  /-- "unrecognized field `num` with … wire type" -/
+  /-- "unrecognized field `num` with … wire type": the first field of the unknown set -/
   | unknown (num wt : Nat)
-  | unprocessable
   deriving DecidableEq, Repr
 
 /-- `StrictProtoCodec.Unmarshal` as far as the top-level wire goes (the known fields' contents
@@ -106,10 +105,8 @@ def strictTop (k : Known) (b : Bytes) : Outcome :=
   match fields b with
   | none => .malformed
   | some fs =>
-    let u := unknownBytes k fs
-    if u.isEmpty then .ok
-    else match consumeTag maxNested u with
-      | some (num, wt, _) => .unknown num wt
-      | none => .unprocessable
+    match unknownFields k fs with
+    | [] => .ok
+    | f :: _ => .unknown f.num f.wt
 
 end ConfModel.ProtoWire
